@@ -525,7 +525,7 @@ def judge_embedded(where, scenic_src, python_src):
     if where in ("behavior", "monitor"):
         p_sub = p_top.body
         first = p_sub[0]
-        if isinstance(first, ast.Expr) and isinstance(first.value, ast.Constant) and isinstance(first.value.value, str):
+        if isinstance(first, ast.Expr) and isinstance(first.value, ast.Constant) and isinstance(first.value.value, (str, bytes)):
             res["status"] = "skipped:docstring-position"
             return res
     elif where == "require":
@@ -580,7 +580,9 @@ def judge_embedded(where, scenic_src, python_src):
     try:
         s_tree2 = parse_string(scenic_src, "exec", filename="<embedded>")
         tree, _ = compileScenicAST(s_tree2, filename="<embedded>")
-        compile(tree, "<embedded>", "exec", dont_inherit=True)
+        from scenic.syntax.translator import compileTranslatedTree
+
+        compileTranslatedTree(tree, "<embedded>")
         res["compiled"] = True
     except (ScenicSyntaxError, SyntaxError):
         res["compiled"] = False  # e.g. `yield` in a behavior: documented error
@@ -633,10 +635,34 @@ def work_file(path):
     return [out]
 
 
+def embedded_outs(src):
+    """Judge the embeddings of a one-statement module in a behavior / monitor body and, if it
+    is an expression statement, in a `require` condition and a specifier argument."""
+    outs = []
+    body = src[:-1]
+    kinds = [("stmt", body)]
+    try:
+        t = ast.parse(src)
+        if len(t.body) == 1 and isinstance(t.body[0], ast.Expr):
+            kinds.append(("expr", body))
+    except SyntaxError:
+        return outs
+    for kind, frag in kinds:
+        for where, ssrc, psrc in G.embeddings(kind, frag):
+            r2 = judge_embedded(where, ssrc, psrc)
+            o2 = _pack(r2, {"kind": "embedded", "where": where, "scenic": ssrc, "python": psrc}, "embedded-" + where)
+            o2["compiled"] = r2.get("compiled")
+            outs.append(o2)
+    return outs
+
+
 def work_text(item):
-    label, src = item
+    label, src, embed = item
     res = judge(src)
-    return [_pack(res, {"kind": "text", "label": label, "src": src}, label.split(":")[0])]
+    outs = [_pack(res, {"kind": "text", "label": label, "src": src}, label.split(":")[0])]
+    if embed:
+        outs += embedded_outs(src)
+    return outs
 
 
 def work_job(job):
@@ -649,20 +675,7 @@ def work_job(job):
         o = _pack(res, {"kind": "text", "label": "asdl:" + "/".join(job) + ":" + ctxlabel, "src": src}, "asdl-" + job[0])
         outs.append(o)
         if embed and ctxlabel == "module":
-            body = src[:-1]
-            kinds = [("stmt", body)]
-            try:
-                t = ast.parse(src)
-                if len(t.body) == 1 and isinstance(t.body[0], ast.Expr):
-                    kinds.append(("expr", body))
-            except SyntaxError:
-                pass
-            for kind, frag in kinds:
-                for where, ssrc, psrc in G.embeddings(kind, frag):
-                    r2 = judge_embedded(where, ssrc, psrc)
-                    o2 = _pack(r2, {"kind": "embedded", "where": where, "scenic": ssrc, "python": psrc}, "embedded-" + where)
-                    o2["compiled"] = r2.get("compiled")
-                    outs.append(o2)
+            outs += embedded_outs(src)
     if not progs:
         outs.append({"status": "no-program", "nodes": 0, "excused": [], "mismatch_counts": {}, "label": "asdl-" + job[0], "violations": []})
     return outs
@@ -793,10 +806,12 @@ def run(ctx):
             if o.get("secs", 0) > 20:
                 slow.append((round(o["secs"], 1), o.get("path")))
 
-    embed = not quick
-    for outs in ctx.pmap(work_job, ctx.rotate([(j, embed) for j in jobs]), chunksize=8 if quick else 32):
+    # embeddings (thorough): every triple / arity program and every two-operator program
+    job_items = [(j, (not quick) and j[0] != "depth3") for j in jobs]
+    text_items = [(lab, src, (not quick) and lab.startswith(("nest", "flat")) and src.count(" ") <= 6 and "\n" not in src[:-1]) for lab, src in texts]
+    for outs in ctx.pmap(work_job, ctx.rotate(job_items), chunksize=8 if quick else 32):
         absorb(outs)
-    for outs in ctx.pmap(work_text, ctx.rotate(texts), chunksize=64):
+    for outs in ctx.pmap(work_text, ctx.rotate(text_items), chunksize=64):
         absorb(outs)
     corpus0 = dict(stats)
     for outs in ctx.pmap(work_file, files if not quick else ctx.rotate(files), chunksize=1):
@@ -866,7 +881,7 @@ def replay(ctx, case):
         r = judge_embedded(case["where"], case["scenic"], case["python"])
         outs = [_pack(r, case, "embedded")]
     else:
-        outs = work_text((case["label"], case["src"]))
+        outs = work_text((case["label"], case["src"], False))
     for o in outs:
         for sig, desc, c in o["violations"]:
             ctx.violation(sig, desc, c)
